@@ -50,9 +50,11 @@ def eval_probes(ctx, out, problems, props=None, extra_rule=""):
     return mine, bad
 
 
-def eval_compile_fail_of_behav(ctx, out):
+def eval_compile_fail_of_behav(ctx, out, only_family=None):
     """every behavioural subject is in the documented domain with a documented configuration"""
     b = stages.behav_stage(ctx.seed, ctx.tier)
+    if only_family:
+        b = dict(b, compile_fail=[m for m in b["compile_fail"] if m.get("sid", "").startswith(only_family)])
     cov = out.evidence["coverage"]
     cov["behavioural_subjects_compiled"] = b["n_subjects"] - len(b["compile_fail"])
     cov["behavioural_subjects_failed_to_compile"] = len(b["compile_fail"])
@@ -72,6 +74,10 @@ def evaluate(ctx, out, problems):
         eval_compile_fail_of_behav(ctx, out)
     elif pid in ("C12", "C13", "C14", "C15", "C19"):
         eval_probes(ctx, out, problems)
+        if pid == "C15":
+            # the corpus family with requested names / visibilities / struct names (ASCII and not): a declaration of it that does not
+            # compile has not got its items under the requested names
+            eval_compile_fail_of_behav(ctx, out, only_family="V")
     elif pid == "C16":
         eval_probes(ctx, out, problems)
         import hostile
